@@ -128,6 +128,11 @@ func c13Gen(r *rand.Rand, tier string) []spec.Case {
 				f := file{"script", pick(r, []int{60, 64, 65, 200})}
 				sum := c13Digest(h, spec.C13File(f.kind, f.size, seed))
 				out = append(out, spec.Case{Kind: "history", P: spec.MustJSON(spec.C13Case{FileKind: f.kind, FileSize: f.size, FileSeed: seed, Hash: h, Variant: "history", Checksum: sum, Steps: hs, CallerReset: reset})})
+				if !reset {
+					f2 := file{"script", 200}
+					sum2 := c13Digest(h, spec.C13File(f2.kind, f2.size, seed))
+					out = append(out, spec.Case{Kind: "history", P: spec.MustJSON(spec.C13Case{FileKind: f2.kind, FileSize: f2.size, FileSeed: seed, Hash: h, Variant: "history-in-place", Checksum: sum2, Steps: hs, InPlace: true})})
+				}
 			}
 		}
 	}
@@ -226,7 +231,7 @@ func c13Judge(c spec.Case, evs []spec.Event, d *Death) CaseResult {
 		return res
 	}
 	if len(p.Steps) > 0 {
-		res.Class = fmt.Sprintf("history/%s/%v/reset=%v", p.Hash, p.Steps, p.CallerReset)
+		res.Class = fmt.Sprintf("history/%s/%v/reset=%v/inplace=%v", p.Hash, p.Steps, p.CallerReset, p.InPlace)
 		if len(o.Steps) != len(p.Steps) {
 			return CaseResult{Verdict: "inconclusive", Inconcl: "history not completed", Class: res.Class}
 		}
@@ -236,6 +241,10 @@ func c13Judge(c spec.Case, evs []spec.Event, d *Death) CaseResult {
 			body := content
 			if st == "tampered" {
 				body = append(append([]byte(nil), content...), '#', 'x')
+			}
+			if st == "tampered" && p.InPlace {
+				body = append([]byte(nil), content...)
+				body[len(body)-1] ^= 1
 			}
 			sum := c13Digest(p.Hash, body)
 			if !bytes.Equal(sum, so.FileSum) {
@@ -334,7 +343,7 @@ func init() {
 		ID: "C13", Level: "exploration", Race: true, TestName: "TestC13",
 		Gen: c13Gen, Batch: 300, Children: 6, PerCase: 500 * time.Millisecond, Base: 90 * time.Second,
 		Judge: c13Judge, Finish: c13Finish,
-		Rule:        "cases = (file content: executable scripts of several sizes around the 64-byte block boundary and non-executable junk incl. empty; hash function; checksum variant: exact, every single-bit flip [exhaustive for the first file, sampled elsewhere in quick, exhaustive everywhere in thorough], every proper prefix, suffixes, 1-8 trailing bytes (random / zero), doubled, leading byte, empty, nil, zeros, digest of another file, nil Hash, missing binary; also for files chosen so that their digest ends in one or two zero bytes) plus histories of 2-4 launches of one path that share one SecureConfig value while the file is atomically replaced (good/tampered) in between, with and without the caller resetting the hash; plus command paths on which lexical and kernel resolution differ (<dir>/a/link/../bin through a directory symlink) or that are symlinks, relative command paths, and a relative path combined with an argv[0] that names the other file by its absolute path, with the approved and a tampered file on either side. The script writes a launch marker as its first action; the oracle computes the digest independently and requires launched <=> checksum == H(file) plus the corresponding error. Class = variant/hash/file",
+		Rule:        "cases = (file content: executable scripts of several sizes around the 64-byte block boundary and non-executable junk incl. empty; hash function; checksum variant: exact, every single-bit flip [exhaustive for the first file, sampled elsewhere in quick, exhaustive everywhere in thorough], every proper prefix, suffixes, 1-8 trailing bytes (random / zero), doubled, leading byte, empty, nil, zeros, digest of another file, nil Hash, missing binary; also for files chosen so that their digest ends in one or two zero bytes) plus histories of 2-4 launches of one path that share one SecureConfig value while the file is atomically replaced (good/tampered) in between, with and without the caller resetting the hash, and with the file rewritten in place (same inode, same length, modification time put back); plus command paths on which lexical and kernel resolution differ (<dir>/a/link/../bin through a directory symlink) or that are symlinks, relative command paths, and a relative path combined with an argv[0] that names the other file by its absolute path, with the approved and a tampered file on either side. The script writes a launch marker as its first action; the oracle computes the digest independently and requires launched <=> checksum == H(file) plus the corresponding error. Class = variant/hash/file",
 		Assumptions: []string{"'the corresponding error' is matched by errors.Is or message containment (Start wraps two of the sentinels with %s)", "for non-executable junk files 'executed' means exec was attempted (Cmd.Process set or a non-checksum error)"},
 	})
 }
